@@ -16,7 +16,9 @@ import (
 	"path/filepath"
 	"sort"
 	"strings"
+	"time"
 
+	"verifharness/cssedge"
 	"verifharness/vlib"
 
 	"github.com/benoitkugler/webrender/css/selector"
@@ -490,6 +492,10 @@ func (g *sgen) attr() string {
 	default:
 		vs = "'" + strings.ReplaceAll(val, "\t", "\\9 ") + "'"
 	}
+	if g.mal && vs != val && g.r.Chance(1, 4) { // a control character RAW inside the quoted string (FF CR LF end it: parse error)
+		k := 1 + g.r.Intn(len(vs)-1)
+		vs = vs[:k] + vlib.Pick(g.r, []string{"\f", "\r", "\n", "\x00", "\x7f", "\x0b", "\t", "\x01"}) + vs[k:]
+	}
 	s := "[" + g.ws() + key + g.ws() + op + g.ws() + vs
 	if iflag {
 		s += vlib.Pick(g.r, []string{" i", " I", "i"})
@@ -867,7 +873,7 @@ func (g *sgen) guided(n *html.Node) string {
 
 // boundary stream: damage a valid selector
 func mutate(r *vlib.Rng, s string) string {
-	const alphabet = "()[]:.#,>+~*\"'\\ -n0123456789=^$|!aAiI/\t"
+	const alphabet = "()[]:.#,>+~*\"'\\ -n0123456789=^$|!aAiI/\t\f\r\n\x00\x7f"
 	b := []byte(s)
 	for k := r.Range(1, 2); k > 0 && len(b) > 0; k-- {
 		i := r.Intn(len(b))
@@ -926,6 +932,40 @@ func descNode(n *html.Node) string {
 	return "document"
 }
 
+// ParseGroup under a watchdog: the parser model is proved total (C05_sel_parse_total), so an
+// implementation that does not return is a failing input, reported like a panic (code 8).  The
+// goroutine of a hung call cannot be stopped: after maxHangs of them the harness stops generating.
+var hangs int
+
+const maxHangs = 4
+
+func parseGuarded(src string) (g selector.SelectorGroup, err error, hung bool) {
+	type res struct {
+		g   selector.SelectorGroup
+		err error
+		pan interface{}
+	}
+	ch := make(chan res, 1)
+	go func() {
+		var r res
+		defer func() {
+			r.pan = recover()
+			ch <- r
+		}()
+		r.g, r.err = selector.ParseGroup(src)
+	}()
+	select {
+	case r := <-ch:
+		if r.pan != nil {
+			panic(r.pan)
+		}
+		return r.g, r.err, false
+	case <-time.After(3 * time.Second):
+		hangs++
+		return nil, nil, true
+	}
+}
+
 // one selector text against one tree: Coq term of type Check.C05.selcase
 func runSel(src string, nodes []*html.Node, tags map[string]bool) (coq string, obs selObs, supported bool, nontrivial bool) {
 	obs.Src = src
@@ -937,7 +977,15 @@ func runSel(src string, nodes []*html.Node, tags map[string]bool) (coq string, o
 			tags["panic"] = true
 		}
 	}()
-	g, err := selector.ParseGroup(src)
+	if hangs >= maxHangs {
+		return "", obs, false, false
+	}
+	g, err, hung := parseGuarded(src)
+	if hung {
+		obs.Panic = "hang: ParseGroup did not return within 3 s"
+		tags["hang"] = true
+		return "SCPanic " + vlib.Bytes(src), obs, true, false
+	}
 	if err != nil {
 		obs.Err = err.Error()
 		tags["parse-error"] = true
@@ -992,7 +1040,12 @@ func runSel(src string, nodes []*html.Node, tags map[string]bool) (coq string, o
 	str := g.String()
 	obs.String = str
 	rt := "None"
-	g2, err2 := selector.ParseGroup(str)
+	g2, err2, hung2 := parseGuarded(str)
+	if hung2 {
+		obs.Panic = "hang: ParseGroup(String()) did not return within 3 s"
+		tags["hang"] = true
+		return "SCPanic " + vlib.Bytes(str), obs, true, false
+	}
 	if err2 != nil {
 		obs.Reparsed = "error: " + err2.Error()
 		tags["reparse-error"] = true
@@ -1242,6 +1295,22 @@ func main() {
 		}
 	}
 
+	// 2a. control characters (FF CR LF NUL TAB VT DEL ...) RAW inside every lexical context of the selector parser
+	// (cssedge.SelectorCtl): accept / reject / structure / hang compared with the parser model
+	{
+		ctl := cssedge.SelectorCtl()
+		const ctlDoc = "<p title=\"x\fy\" class=\"c d\" id=i lang=fr>a</p><a title=\"x y\" t=\"\">b</a><x-a title=\"x\ty\">c</x-a>"
+		for i := 0; i < len(ctl) && hangs < maxHangs; i += 60 {
+			j := i + 60
+			if j > len(ctl) {
+				j = len(ctl)
+			}
+			if c, ok := runDoc(ctlDoc, ctl[i:j], "ctl"); ok {
+				w.Add(c)
+			}
+		}
+	}
+
 	// 2b. Specificity.Less / Add on pairs of triples (columns around 10, 100, 256, 1000, 65536)
 	for k := 0; k < 6; k++ {
 		w.Add(lessCase(rng.Fork(), 48))
@@ -1249,7 +1318,7 @@ func main() {
 
 	// 3. random documents x random selectors; one case in five uses the boundary stream
 	target := w.N() + *n
-	for w.N() < target {
+	for w.N() < target && hangs < maxHangs {
 		r := rng.Fork()
 		doc := genDoc(r)
 		kind := "random"
